@@ -1416,7 +1416,9 @@ def eager_cases():
     """reproducer of F3 / D21: eager threaded pipeline (allow_lazy=False, or max_workers=2), consumer slower than the pipeline"""
     out = [dict(kind="source", viol="gap:before", bad_i=b, processor="threaded_mailbox", target="pp", n=4, mode="eager_slow") for b in (1, 2, 3)]
     out += [dict(kind=k, viol=v, bad_i=2, processor="threaded_mailbox", target="pp", n=4, mode="eager_slow", max_workers=2)
-            for k, v in (("ordinary", "gap:overlap_before"), ("down", "gap:after"))]
+            for k, v in (("ordinary", "gap:overlap_before"), ("cut", "gap:after"))]
+    # (streams of 4 chunks: they fit into the target's mailbox, max_messages = 4, so the pipeline can drain ahead of the consumer;
+    #  a down-chunking plugin's 8 chunks would block the producer on the slow reader instead)
     return out
 
 
